@@ -722,8 +722,32 @@ def check_c11(idx: Index, tier: str, res: Result) -> None:
             if not (isinstance(nd.ast, ast.Compare) and isinstance(nd.ast.ops[0], (ast.Eq, ast.LtE, ast.Lt, ast.Is, ast.In, ast.NotIn))):
                 drains.add(nd.id)
 
+    from ..util import implied as _implied
+
+    def _inbox_empty(atom, truth) -> bool:
+        """(atom, truth) says: the inbox is empty"""
+        if isinstance(atom, ast.Compare) and len(atom.ops) == 1 and isinstance(atom.left, ast.Call) and call_name(atom.left) == "len" \
+                and atom.left.args and dotted(atom.left.args[0]) == "self.events" and const_int(atom.comparators[0]) == 0:
+            return (isinstance(atom.ops[0], (ast.Gt, ast.NotEq)) and not truth) or (isinstance(atom.ops[0], (ast.Eq, ast.LtE)) and truth)
+        if dotted(atom) == "self.events" or (isinstance(atom, ast.Call) and call_name(atom) == "len" and atom.args and dotted(atom.args[0]) == "self.events"):
+            return not truth
+        return False
+    edge_drains = {}
+    for nd in cfg.nodes:
+        if nd.kind == "test" and nd.ast is not None and "self.events" in src(nd.ast):
+            for lab in ("true", "false"):
+                try:
+                    if any(_inbox_empty(a_, t_) for a_, t_ in _implied(nd.ast, lab == "true")):
+                        edge_drains[(nd.id, lab)] = True
+                except Exception:
+                    pass
+    if edge_drains:
+        drains |= {k[0] for k in edge_drains}
+
     def trd(node: Node, fact, label):
-        if node.id in drains and label == "false":
+        if (node.id, label) in edge_drains:
+            fact = True
+        if node.id in drains and label == "false" and not any(k[0] == node.id for k in edge_drains):
             fact = True
         if node.kind == "stmt" and label != "exc":
             s = node.ast
@@ -811,9 +835,22 @@ def model_agent_lookup_rule(idx: Index, res: Result, rule: str) -> None:
             and {src(n.left), src(n.comparators[0])} == {"agent.id", "agent_id"}]
     cmp_ = [n for n in ast.walk(ag.node) if isinstance(n, ast.Compare) and len(n.ops) == 1 and isinstance(n.ops[0], ast.Eq)
             and {src(n.left), src(n.comparators[0])} == {"agent.id", "agent_id"}]
+    if not cmp_:
+        # by role: <the variable of a loop over self.agents>.id == <the parameter>
+        idp = params(ag.node)[1] if len(params(ag.node)) > 1 else "agent_id"
+        lvars = {x.target.id for x in ast.walk(ag.node) if isinstance(x, (ast.For, ast.comprehension)) and isinstance(x.target, ast.Name) and "agents" in src(x.iter)}
+        cmp_ = [n for n in ast.walk(ag.node) if isinstance(n, ast.Compare) and len(n.ops) == 1 and isinstance(n.ops[0], ast.Eq)
+                and {src(n.left), src(n.comparators[0])} in [{"%s.id" % v, idp} for v in lvars]]
     last = ag.node.body[-1]
     lastv = _deref(ag.node, last.value) if isinstance(last, ast.Return) and last.value is not None else None
     none_when_absent = isinstance(last, ast.Return) and (last.value is None or (isinstance(last.value, ast.Constant) and last.value.value is None))
+    if isinstance(last, ast.Return) and isinstance(last.value, ast.Name):
+        # found = None ... for a in self.agents: if a.id == id: found = a; break ... return found
+        binds = single_assignments(ag.node).get(last.value.id, [])
+        lv = {x.target.id for x in ast.walk(ag.node) if isinstance(x, ast.For) and isinstance(x.target, ast.Name) and "agents" in src(x.iter)}
+        if binds and any(isinstance(b, ast.Constant) and b.value is None for b in binds) and all(
+                (isinstance(b, ast.Constant) and b.value is None) or (isinstance(b, ast.Name) and b.id in lv) for b in binds):
+            none_when_absent = True
     # next((a for a in self.agents if a.id == agent_id), None)
     if isinstance(lastv, ast.Call) and call_name(lastv) == "next" and len(lastv.args) == 2 and isinstance(lastv.args[1], ast.Constant) and lastv.args[1].value is None:
         gen = _deref(ag.node, lastv.args[0])
